@@ -73,6 +73,15 @@ func Run(c *core.Ctx, replay string) (*core.Result, error) {
 		for _, te := range absprog.MinimalKinds() {
 			progs = append(progs, absprog.Minimal(len(progs)+1, te))
 		}
+		// local named types spelled like the generator's own brands / aliases (Time, Date_, Int), alone in their file
+		tt := absprog.Time()
+		i64 := absprog.Basic("int64")
+		progs = append(progs, &absprog.Prog{ID: len(progs) + 1, Decls: []absprog.Decl{
+			{K: "named", Name: "Time", Under: &tt, Extra: "func (d Time) MarshalJSON() ([]byte, error) { return time.Time(d).MarshalJSON() }\nfunc (d *Time) UnmarshalJSON(b []byte) error { return (*time.Time)(d).UnmarshalJSON(b) }"},
+			{K: "struct", Name: "Agenda", Fields: []absprog.Field{{Name: "At", Type: absprog.Ref("", "Time")}, {Name: "Title", Type: absprog.Basic("string")}}}}})
+		progs = append(progs, &absprog.Prog{ID: len(progs) + 1, Decls: []absprog.Decl{
+			{K: "named", Name: "Int", Under: &i64},
+			{K: "struct", Name: "Counter", Fields: []absprog.Field{{Name: "N", Type: absprog.Ref("", "Int")}, {Name: "Label", Type: absprog.Basic("string")}}}}})
 		progs = append(progs, witnessBytes(len(progs)+1), witnessDup(len(progs)+2))
 		nWitness = 2
 	}
@@ -165,6 +174,10 @@ func Run(c *core.Ctx, replay string) (*core.Result, error) {
 	res.Evaluations = len(recs)
 	res.TracesVsImpl = len(recs)
 	res.Nontrivial = len(distinct)
+	// coverage guard: a generator refusing (or breaking on) most packages would silently empty the check
+	if replay == "" && skipped*3 > len(progs) {
+		return nil, core.Inconcl("%d of %d packages were left out (generator refusal or generated code that does not compile): the check no longer covers its universe", skipped, len(progs))
+	}
 	res.Rule = fmt.Sprintf("%d seeded random packages + 2 witnesses of recorded findings; per package the real TypeScript output is parsed into an environment and every document marshalled from %d reflection-built values per top-level type (compiled with the generated wrappers) is judged against it; distinct = distinct (type, document)", len(progs)-nWitness-skipped, nVals) + fmt.Sprintf("; %d of the packages are single-field programs (one field kind alone in the analysed file)", len(absprog.MinimalKinds()))
 	res.Extra = map[string]any{"programs_left_out": skipped}
 	return res, nil
